@@ -113,3 +113,30 @@ func TestC18RegressFreeStateIDWithLocksHeld(t *testing.T) {
 		}
 	})
 }
+
+// C18: "state IDs are honoured only for the file ... they were issued for":
+// the current state ID set by OPEN does not survive an operation that sets
+// the current file handle anew (PUTFH, PUTROOTFH, LOOKUP), but it is saved
+// and restored together with the file handle by SAVEFH/RESTOREFH.
+func TestC18RegressCurrentStateIDFollowsFileHandle(t *testing.T) {
+	runScript(t, 1, func(w *world) {
+		sess := w.bootstrap(w.clients[0])
+		inc := sess.inc
+		w.next(sess, 0, w.tLookup("a"), true, nil)
+		w.next(sess, 0, w.tLookup("b"), true, nil)
+		fhB := w.fhOf("b")
+		for _, via := range []string{"putfh_other", "putfh_same", "putrootfh", "lookup_other", "lookup_same"} {
+			for _, then := range []string{"read", "write", "close", "setattr", "downgrade", "lock"} {
+				w.next(sess, 0, w.tOpenThen(inc, "a", "o1", accR|accW, then, via, fhB, "b"), true, nil)
+			}
+		}
+		if w.labels["stateid_rejected:current_after_filehandle_change"] != 30 {
+			t.Fatalf("not every variant was evaluated: %v", w.labels)
+		}
+		w.next(sess, 0, w.tOpenThen(inc, "a", "o1", accR|accW, "read", "save_restore", fhB, "b"), true, nil)
+		w.next(sess, 0, w.tOpenThen(inc, "a", "o1", accR|accW, "close", "save_restore", fhB, "b"), true, nil)
+		if w.labels["current_stateid_restored_by_restorefh"] != 2 || len(inc.opens) != 0 {
+			t.Fatalf("SAVEFH/RESTOREFH variant did not close the file: %v", w.labels)
+		}
+	})
+}
